@@ -121,6 +121,25 @@ def generate(tier, rng):
                 for key in bad:
                     cases.append(dict(base, stream="malformed", uni=_with_sub(uni, key),
                                       steps=[dict(op="get", key=key), dict(op="set", key=key, rhs=dict(kind="num", c=5))]))
+    # every ordered subset (sizes 2..4) of a 5-item dimension, as subset Dimension (reads, writes) and as list (writes)
+    u5 = mk_universe((5, 2), "ab")
+    import itertools as _it
+    kk = 0
+    for dims in (["a"], ["b", "a"], ["a", "b"]):
+        n = nelem(u5, dims)
+        arr = dict(dims=dims, values=[(i + 1) * (-1) ** (i % 4 == 1) for i in range(n)], layout="C")
+        for size in (2, 3, 4):
+            for sub in _it.permutations(u5["a"]["items"], size):
+                kk += 1
+                if tier == "quick" and len(dims) == 2 and kk % 3:
+                    continue
+                key = dict(form="dict", entries=[["L", "a", ["dim", subdim(u5, "a", list(sub))]]])
+                u2 = _with_sub(u5, key)
+                if kk % 2:
+                    cases.append(dict(stream="subset-orders", uni=u2, arr=arr, steps=[dict(op="get", key=key)]))
+                else:
+                    keyl = dict(form="dict", entries=[["L", "a", ["list", list(sub)]]]) if kk % 4 == 0 else key
+                    cases.append(dict(stream="subset-orders", uni=u2, arr=arr, steps=[dict(op="set", key=keyl, rhs=dict(kind="num", c=77)), dict(op="get", key=dict(form="ellipsis"))]))
     # ambiguous items: two dimensions sharing an item
     amb = mk_universe((2, 2), "ab")
     amb["b"]["items"] = ["a0", "b1"]
